@@ -186,6 +186,10 @@ if spec.get("python_source"):
 else:
     mods = {name: __import__(name) for name in spec["modules"]}
 for mname, mm in mods.items():
+    if mname == "c39x":
+        # operand expressions must build instances of the classes the module itself matches against
+        ns.update({k: v for k, v in vars(mm).items() if not k.startswith("__")})
+for mname, mm in mods.items():
     ns[mname] = mm
 
 def dec(v):
@@ -262,9 +266,10 @@ print(json.dumps({"done": len(spec["calls"])}))
 # ---------------------------------------------------------------------------------------------
 # c39x: extras.  "#@ ..." lines give the operand tables of the def that follows.
 # ---------------------------------------------------------------------------------------------
-XSRC = r'''# cython: language_level=3
+XSRC_HEAD = r'''# cython: language_level=3
 import cython
-import sys
+'''
+XSRC_BODY = r'''
 
 # ---- unicode: CYTHON_USE_UNICODE_INTERNALS / ASSUME_SAFE_MACROS / ASSUME_SAFE_SIZE / Limited API
 #@ S I
@@ -396,7 +401,7 @@ def o_setdel(l, i):
         r.append(type(e).__name__)
     return r
 #@ L I I
-def l_slice(list l, Py_ssize_t i, Py_ssize_t j): return l[i:j], l[i:], l[:j], l[::2], l[i:j:2] if True else None
+def l_slice(list l, Py_ssize_t i, Py_ssize_t j): return l[i:j], l[i:], l[:j], l[::2], l[i:j:2]
 #@ L I
 def l_pop(list l, Py_ssize_t i):
     r = []
@@ -638,7 +643,7 @@ def n_cint_ops(long a, long b):
         r.append("ZeroDivisionError")
     return r, f"{a}", f"{a:5d}", f"{b:x}" if b >= 0 else None, str(a), "%d" % b, f"{a:08d}|{b:<6d}|"
 #@ NS
-def n_cint_fmt(int a): return f"{a}", f"{a:3d}", f"{a:03d}", f"{a:x}", f"{a:o}", f"{a:#x}" if False else None, str(a), repr(a), "%s" % a, f"{a:c}" if 0 <= a < 0x110000 and not (0xD800 <= a < 0xE000) else None, f"[{a!r:>12}]"
+def n_cint_fmt(int a): return f"{a}", f"{a:3d}", f"{a:03d}", f"{a:x}", f"{a:o}", str(a), repr(a), "%s" % a, f"{a:c}" if 0 <= a < 0x110000 and not (0xD800 <= a < 0xE000) else None, f"[{a!r:>12}]"
 #@ NS
 def n_cuint_fmt(unsigned long a): return f"{a}", f"{a:20d}", f"{a:X}", str(a)
 #@ FL
@@ -848,7 +853,7 @@ def e_match(k):
 def e_raise_forms(k):
     try:
         if k == 0: raise 5
-        if k == 1: raise ValueError, None
+        if k == 1: raise ValueError
         if k == 2: raise int
         if k == 3: raise ValueError("x").with_traceback(None)
         if k == 4: raise
@@ -1077,6 +1082,7 @@ def fa_call_direct(name, args, kw):
 # ---- imports / globals: ImportExport.c, module dict lookups
 #@ EX
 def i_imports(k):
+    global GLOB
     r = []
     try:
         if k == 0:
@@ -1088,14 +1094,16 @@ def i_imports(k):
         elif k == 3:
             from os import path, sep; r.append(sep)
         elif k == 4:
-            r.append(__name__.startswith("c39")); r.append(len.__name__); r.append(no_such_global)
+            r.append(__name__.startswith("c39")); r.append(len.__name__); r.append(globals()["no_such_global"])
         elif k == 5:
-            global GLOB
             GLOB = 5; r.append(GLOB); del GLOB; r.append(GLOB)
     except Exception as e:
         r.append(type(e).__name__)
     return r
 '''
+
+
+XSRC = XSRC_HEAD + SUPPORT + XSRC_BODY
 
 
 def x_functions():
@@ -1107,6 +1115,8 @@ def x_functions():
             out.append((name, "zip", spec[1:]))
         elif spec[0].startswith("rows:"):
             out.append((name, "rows", [spec[0][5:]]))
+        elif len(spec) == 1 and spec[0] in X_ROWS:
+            out.append((name, "rows", spec))
         else:
             out.append((name, "product", spec))
     return out
@@ -1116,7 +1126,7 @@ def x_tables(rng, quick):
     S = ["", "a", "abc", "abcabc", "\xe9", "a\xe9", "caf\xe9 ab", "€", "a€b€", "\U0001f600", "x\U0001f600y\xe9", "\x00a\x00",
          " ab cd ", "123"]
     I = [0, 1, 2, 3, -1, -2, -3, 5, -6, 100, -100, 2 ** 62]
-    C = [0, 65, 0x61, 0xe9, 0xff, 0x100, 0x20ac, 0xd7ff, 0xffff, 0x10000, 0x1f600, 0x10ffff]
+    C = [0, 65, 0x61, 0xe9, 0xff, 0x100, 0x20ac, 0xd7ff, 0xd800, 0xffff, 0x10000, 0x1f600, 0x10ffff, 0x110000, -1]
     B = [b"", b"a", b"b", b"ab", b"abc", b"abd", b"ab\x00", b"\x00", b"\xff\xfe", b"abcabc", b"a" * 40]
     L = [[], [1], [1, 2], [1, 2, 3], ["a", None, 2.5, (1,)], list(range(10)), [[1], [2]]]
     LO = [[1, 2, 3], (1, 2, 3), "abc", b"abc", Py("L2([1, 2, 3])"), Py("T2((1, 2, 3))"), Py("Seq(1, 2, 3)"), Py("bytearray(b'abc')"),
@@ -1197,7 +1207,7 @@ def ops_tables(rng, quick):
     if quick:
         cls = [p for p in fi if p[3].startswith("class")]
         oth = [p for p in fi if not p[3].startswith("class")]
-        fi = cls[::2] + rng.sample(oth, 900)
+        fi = cls[0::4] + cls[1::4] + rng.sample(oth, 900)        # (pairs come as fi, if, fi, if ...)
     tables["FI"] = [[ev(a), ev(b), False] for d, a, b, _ in fi if d == "fi"]
     tables["IF"] = [[ev(a), ev(b), False] for d, a, b, _ in fi if d == "if"]
     tables["FF"] = [[ev(a), ev(b), False] for d, a, b, _ in fi if d == "ff"]
